@@ -74,6 +74,22 @@ pub uninterp spec fn f64_cmp(l: f64, r: f64) -> Option<Ordering>;
 #[verifier::external_body] pub fn bytes_eq(l: &CelBytes, r: &CelBytes) -> (o: bool) ensures o == (l@ == r@) { unimplemented!() }
 #[verifier::external_body] pub fn ts_eq(l: &DateTime<Utc>, r: &DateTime<Utc>) -> (o: bool) ensures o == (*l == *r) { unimplemented!() }
 #[verifier::external_body] pub fn dur_eq(l: &Duration, r: &Duration) -> (o: bool) ensures o == (*l == *r) { unimplemented!() }
+// coarser views of an instant / a span (chrono), WITHOUT contracts: present so that a comparison rewritten through one of them is decided
+// against the postcondition instead of failing to type-check
+impl<T> DateTime<T> {
+    #[verifier::external_body] pub fn timestamp(&self) -> i64 { unimplemented!() }
+    #[verifier::external_body] pub fn timestamp_millis(&self) -> i64 { unimplemented!() }
+    #[verifier::external_body] pub fn timestamp_micros(&self) -> i64 { unimplemented!() }
+    #[verifier::external_body] pub fn timestamp_nanos_opt(&self) -> Option<i64> { unimplemented!() }
+    #[verifier::external_body] pub fn timestamp_subsec_nanos(&self) -> u32 { unimplemented!() }
+}
+impl Duration {
+    #[verifier::external_body] pub fn num_seconds(&self) -> i64 { unimplemented!() }
+    #[verifier::external_body] pub fn num_milliseconds(&self) -> i64 { unimplemented!() }
+    #[verifier::external_body] pub fn num_microseconds(&self) -> Option<i64> { unimplemented!() }
+    #[verifier::external_body] pub fn num_nanoseconds(&self) -> Option<i64> { unimplemented!() }
+    #[verifier::external_body] pub fn subsec_nanos(&self) -> i32 { unimplemented!() }
+}
 #[verifier::external_body] pub fn dyn_downcast(d: &DynArc) -> Option<&CelValue> { unimplemented!() }
 #[verifier::external_body] pub fn list_eq(l: Vec<CelValue>, r: Vec<CelValue>) -> (o: CelValue) ensures o is Bool || o is Err { unimplemented!() }
 #[verifier::external_body] pub fn map_eq(l: HashMap<String, CelValue>, r: HashMap<String, CelValue>) -> (o: CelValue) ensures o is Bool { unimplemented!() }
@@ -217,8 +233,8 @@ pub open spec fn scalar_eq_ok(a: CelValue, b: CelValue, r: CelValue, negate: boo
             arm_rewrites={
                 '(CelValue::Float(l), CelValue::Float(r))': [('l == r', 'f64_eq(l, r)', R2C)],
                 '(CelValue::Bytes(l), CelValue::Bytes(r))': [('l == r', 'bytes_eq(&l, &r)', R2C)],
-                '(CelValue::TimeStamp(l), CelValue::TimeStamp(r))': [('l == r', 'ts_eq(&l, &r)', R2C)],
-                '(CelValue::Duration(l), CelValue::Duration(r))': [('l == r', 'dur_eq(&l, &r)', R2C)],
+                '(CelValue::TimeStamp(l), CelValue::TimeStamp(r))': [('l == r', 'ts_eq(&l, &r)', R2C, 'opt'), ('r == l', 'ts_eq(&r, &l)', R2C, 'opt')],
+                '(CelValue::Duration(l), CelValue::Duration(r))': [('l == r', 'dur_eq(&l, &r)', R2C, 'opt'), ('r == l', 'dur_eq(&r, &l)', R2C, 'opt')],
             },
             arm_replace={'(CelValue::List(l), CelValue::List(r))': ('{ list_eq(l, r) }', 'std::iter::zip has no Verus support; element-wise list equality is NOT verified'),
                          '(CelValue::Map(l), CelValue::Map(r))': ('{ map_eq(l, r) }', 'HashMap<String,_>::into_iter / remove have no Verus support; map equality is NOT verified')},
